@@ -373,7 +373,7 @@ func (p *VipnodePool) requestHosts(ctx context.Context, nodeID string, numReques
 	}
 
 	var hosts []store.Node
-	if numRequestHosts == 0 {
+	if numRequestHosts <= 0 {
 		// Nothing left to do
 		return hosts, nil
 	}
@@ -425,6 +425,12 @@ func (p *VipnodePool) requestHosts(ctx context.Context, nodeID string, numReques
 		}
 	}
 	p.mu.Unlock()
+
+	if len(remotes) > numRequestHosts {
+		// The store was asked for extra candidates to make up for skipped
+		// peers, don't whitelist (and return) more hosts than requested.
+		remotes = remotes[:numRequestHosts]
+	}
 
 	accepted := make([]store.Node, 0, len(remotes))
 	callCtx, cancel := context.WithTimeout(ctx, poolWhitelistTimeout)
